@@ -75,6 +75,11 @@ def detect(mut, props, tier='quick'):
         print('patch does not apply: ' + out)
         return None
     res = {}
+    # evidence files describe the real tree: keep them aside while a seeded change is applied
+    saved = {}
+    for p in props:
+        ep = os.path.join(ROOT, 'evidence', p + '.json')
+        saved[ep] = open(ep).read() if os.path.exists(ep) else None
     try:
         for p in props:
             t0 = time.time()
@@ -86,6 +91,9 @@ def detect(mut, props, tier='quick'):
     finally:
         sh(['git', '-C', '/repo', 'checkout', '--', '.'])
         sh(['git', '-C', '/repo', 'clean', '-fdq', 'src'])
+        for ep, txt in saved.items():
+            if txt is not None:
+                open(ep, 'w').write(txt)
         # replays produced by a seeded run are not findings about the real tree
         for f in os.listdir(os.path.join(ROOT, 'replays')) if os.path.isdir(os.path.join(ROOT, 'replays')) else []:
             os.remove(os.path.join(ROOT, 'replays', f))
